@@ -293,6 +293,13 @@ func (vo valueOutput) Put(v any) error {
 		return ErrPortDoesNotSupportValueOutput
 	}
 	select {
+	case <-vo.sendStop:
+		// No value may be sent any more, even if the channel has room. In
+		// particular the reading end of a pipe is never sent on.
+		return *vo.sendError
+	default:
+	}
+	select {
 	case vo.data <- v:
 		return nil
 	case <-vo.sendStop:
